@@ -77,6 +77,8 @@ def run_single(cfg: dict, ctx, letters=None, conn_letters=None, fp=True, prior=(
     world.reset()
     peer = ScriptPeer(cfg['transport'], cfg['T'], None, letters, conn_letters)
     peer.default_letter = 'valid'
+    if cfg.get('udp_connect'):
+        peer.udp_conn_letters = ['ok', 'netunreach']
     loop = KLoop(peer, ctx=ctx)
     p = make_protocol(cfg['transport'], cfg['T'], cfg['R'], cfg['ka'])
     for sc in prior:
